@@ -23,7 +23,7 @@ CHECKS = {
  'C05': dict(level='exploration', tech='exhaustive (program x hash seed x in-process history) enumeration in fresh processes with harness-controlled hash seeds',
    text="Every source of nondeterminism the compiler has (std HashMap seeds, state left behind by an earlier compile() in the same process) is owned by the harness: a getrandom() shim supplies the hash seed, and each corpus program (some with their own -D options, some defining the same macro name with different shapes) is compiled under every seed of the tier and after every other corpus program; the full compilation record must be byte-identical. The check proves on a probe map that the seeds change iteration order.", ref='4 C05'),
  'C06': dict(level='exploration', tech='bounded exhaustive enumeration of (prefix construct x error kind x placement) with a reference line map',
-   text="All combinations of 19 line-shifting prefix constructs (block comments, continuation lines, multi-line macros, conditionals, includes of C and assembler files with and without final newline, non-ASCII text) x 16 error kinds x 5 placements: the diagnostic must name the file, physical line and include chain computed by an independent line accounting; the preprocessor line map is checked against the reference on every line.", ref='4 C06'),
+   text="All combinations of 19 line-shifting prefix constructs (block comments, continuation lines, multi-line macros, conditionals, includes of C and assembler files with and without final newline, non-ASCII text) x 18 error kinds (preprocessor, syntax, semantic, generator stage in statements and in local initialisers) x 5 placements: the diagnostic must name the file, physical line and include chain computed by an independent line accounting; the preprocessor line map is checked against the reference on every line.", ref='4 C06'),
  'C08': dict(level='exploration', tech='bounded exhaustive enumeration of macro definition sets x use sites against a reference expander',
    text="20 definition sets (object-like chains, function-like macros with 1-3 parameters, parameters named like macros, nested invocations, redefinition, #undef, -D options) x all use-site fillers: the preprocessed text and the compiled constants must equal a reference expander written for the documented semantics.", ref='4 C08'),
  'C09': dict(level='exploration', tech='bounded exhaustive enumeration of literal atoms x places, decoded bytes compared with a reference decoder',
@@ -43,7 +43,7 @@ CHECKS = {
  'C17': dict(level='exploration', tech='bounded exhaustive enumeration of (statement x split-port placement), execution on an emulator with a split-port RAM fault model',
    text="All 74 statements (thorough: pairs) x 15 subsets of variables placed in split-port RAM x 3 cartridge schemes at -O0/-O1 are executed on the emulator whose RAM model faults on a read of a write port, a write to a read port and any read-modify-write; results are compared with the same program using ordinary variables.", ref='4 C17'),
  'C18': dict(level='exploration', tech='bounded exhaustive enumeration of csleep counts x surrounding code, cycle-exact measurement on the emulator',
-   text="Every csleep(n) for n in the accepted range, alone, in adjacent pairs/triples and between every pair of surrounding statements, at every optimisation level: the cycles measured between two marker strobes on the cycle-exact emulator must equal n plus the surroundings' own cycles, registers and flags-dependent behaviour must be unchanged; volatile accesses (strobe, load, store, asm) must appear in the access trace in source order and number at every level, also when they sit in inlined functions; regions made of explicit statements only must take the same number of cycles at every level.", ref='4 C18'),
+   text="Every csleep(n) for n in the accepted range, alone, in adjacent pairs/triples and between every pair of surrounding statements, at every optimisation level: the cycles measured between two marker strobes on the cycle-exact emulator must equal n plus the surroundings' own cycles, registers and flags-dependent behaviour must be unchanged; volatile accesses (strobe, load, store, asm) must appear in the access trace in source order and number at every level, also when they sit in inlined functions, and at the address the source names (a block of registers reached with subscripts that have side effects or need a register); regions made of explicit statements only must take the same number of cycles at every level.", ref='4 C18'),
 }
 
 def main():
